@@ -31,6 +31,9 @@ CHECKS = {
     "C10": ("objsim", "deterministic simulation: long histories of leaf and whole-compound assignments through handles and rebuilt views interleaved with growth, whole-world model compared after every step", "After every assignment the whole world (every object, through handle, rebuilt view and decoder) is compared with a model changed at exactly that element, and the decoder's layout map (sizes, shapes, capacities, offsets) of every object must be unchanged.", "Trusted: sim/model.py; assignment of reference-bearing compounds is outside the property's alphabet and not generated.", "DESIGN.md §3.2, §4 C10"),
     "C11": ("objsim", "deterministic simulation with misuse injection: operations that cannot be honoured are issued against objects with live neighbours; exception + whole-world unchanged checked", "Misuse catalogue (index outside shape, update of other length/shape, string or item too large, non-member union value, buffer/context mismatch, offset without buffer) injected into histories; an exception must be raised and every pre-existing object's value and bytes must be unchanged. Two recorded known findings (non-atomic compound updates) are replayed on every run and quarantined from random generation.", "Trusted: the catalogue's classification of what cannot be honoured (DESIGN.md §4 C11, §5 ambiguities).", "DESIGN.md §3.2, §4 C11"),
     "C20": ("objsim", "deterministic simulation with restart injection: groups of handles are pickled and reloaded at arbitrary points, history continues on both sides against two models", "restart(group) at seeded points for groups sharing and not sharing buffers; restored objects must equal the model, be usable for further reads/writes/constructions, be independent of the original storage, and share buffers exactly as before; the restored buffer keeps working as an allocator (later allocations checked for overlap).", "Trusted: in-process pickle round trip (as in the property's observe_at); classes registered in an importable module.", "DESIGN.md §3.2, §4 C20"),
+    "C02": ("capisim", "deterministic simulation: compiled C accessors run as a third reader of the shared storage inside seeded object histories (relocation, fragmentation, dirty reuse); values vs model, addresses vs independent decoder", "Per world the real add_kernels path compiles the accessor API of every generated type; c_read sweeps objects and nested parts (through fields, indices and references, all in-range index tuples) with _get/_getp/_len/_typeid/_member at arbitrary offsets of relocated buffers; every value is compared with the model and every address with the layout map of the independent decoder; a final sweep covers every live object. Weak fit: the type dimension is seeded generation; the symbolic all-indices reading is not claimed.", "Trusted: sim/layout.py for addresses, sim/model.py for values; cffi for the call itself.", "DESIGN.md §3.3, §4 C02"),
+    "C07": ("capisim", "deterministic simulation: C setters interleaved with Python writes and relocation; byte diff restricted to the addressed leaf, whole world re-read against a model changed at one leaf; sanitizer run of the emitted source on exact-size images", "c_set writes type-extreme values through <T>_set... on every scalar-leaf path (top objects and nested views, through references); after each call every byte outside the leaf's decoded extent must be unchanged and every object (handle, rebuilt view, decoder) must equal the model changed at exactly that leaf.", "Trusted: decoder extents, model. Second sentence (sanitizers) is decided by the devsim accessor mode when built; until then only the first sentence is claimed.", "DESIGN.md §3.3, §4 C07"),
+    "C17": ("capisim", "deterministic simulation: probe kernels with seeded signatures called inside object histories (growth, relocation, nested objects, array slices); what C received is compared byte-for-byte with what Python holds now; malformed calls must be refused", "Per world 4-9 probe kernels over {10 scalar types by value, const/non-const pointer-to-scalar, struct/array/union xobjects} with scalar or void return are compiled by the real add_kernels path; calls pass type extremes (python and numpy scalar forms), ndarrays, slices, strided and 2-D arrays, xobject arrays (also nested / behind references) and objects at any offset after relocation; the kernel records what it saw; non-const pointers are written through and must be visible from Python; positional / missing / extra arguments and arrays of the wrong element type must raise and change nothing.", "Trusted: the probe source generated by sim/cprobes.py; cffi. Serial and OpenMP CPU contexts only.", "DESIGN.md §3.3, §4 C17"),
 }
 
 NOT_YET = "check not built yet in this revision (engine under construction, see DESIGN.md build order); will be claimed or given its final not-applicable reason when the engine lands"
